@@ -621,7 +621,10 @@ func (m *Manager) acquireTasks(envId uid.ID, taskDescriptors Descriptors) (err e
 		}
 	}
 
-	m.deployMu.Unlock()
+	if len(tasksToRun) > 0 {
+		// the deployment lock is only taken when something had to be deployed
+		m.deployMu.Unlock()
+	}
 
 	if !deploymentSuccess {
 		var deployedTaskIds []string
